@@ -28,7 +28,7 @@ CHECKS = {
         "Hypothesis-generated chopper configurations vs an independent rotating-disk simulator (reference model); "
         "constructed invalid inputs for the rejection clauses",
         "Generated-input search against a reference model: every reported open/close pair of DiskChopper and of "
-        "Chopper.from_disk_chopper(npulses=1..4) is replayed on a rotating-disk simulator written from the module "
+        "Chopper.from_disk_chopper(npulses=1..6) is replayed on a rotating-disk simulator written from the module "
         "documentation (open inside, closed just outside, duration, multiset equality with the simulator's openings in "
         "the covered span, so duplicates and omissions are both caught); out-of-phase frequencies and overlapping slit "
         "sets (also modulo 360 deg) are constructed and must raise ValueError, through the DiskChopper methods and "
